@@ -1,0 +1,60 @@
+//go:build verif
+
+// Contracts for findmissing.go, checked by /verif (govc). Comment-only file.
+//
+// Quantified clauses range over ABSOLUTE positions k of the backing array
+// (lo(s) <= k < hi(s)), so that the solvers' patterns contain no arithmetic.
+
+package disk
+
+// The index state may only be touched through SizedLRU's own methods (all under
+// contract): a lookup that bypasses Get would not count as a use (C05).
+//@ encapsulated SizedLRU
+
+//@ ghost visited Int
+
+//@ pred lo(s) = offset(s)
+//@ pred hi(s) = offset(s) + len(s)
+// number of non-nil entries among the first n elements of s in the pre-state
+//@ pred nnOld(s, n) = nncount(old(elems(s)), offset(s), n)
+
+//@ func filterNonNil(blobs []*pb.Digest) []*pb.Digest
+//@   serves C10
+//@   modifies elems(blobs)
+//@   ensures[C10] prefix: arr(result) == arr(blobs) && offset(result) == offset(blobs) && len(result) <= len(blobs)
+//@   ensures[C10] count: len(result) == nnOld(blobs, len(blobs))
+//@   ensures[C10] nonnil: forall k Int :: (lo(blobs) <= k && k < lo(blobs) + len(result)) ==> elems(blobs)[k] != 0
+//@   ensures[C10] kept: forall k Int :: (lo(blobs) <= k && k < hi(blobs) && old(elems(blobs))[k] != 0) ==> elems(blobs)[lo(blobs) + nnOld(blobs, k - lo(blobs))] == old(elems(blobs))[k]
+//@   loop 0 invariant idx: 0 <= i && i <= len(blobs) && 0 <= count && count <= i
+//@   loop 0 invariant cnt: count == nnOld(blobs, i)
+//@   loop 0 invariant rest: forall k Int :: (lo(blobs) + i <= k && k < hi(blobs)) ==> elems(blobs)[k] == old(elems(blobs))[k]
+//@   loop 0 invariant done: forall k Int :: (lo(blobs) <= k && k < lo(blobs) + i && old(elems(blobs))[k] != 0) ==> elems(blobs)[lo(blobs) + nnOld(blobs, k - lo(blobs))] == old(elems(blobs))[k]
+//@   loop 0 invariant nn: forall k Int :: (lo(blobs) <= k && k < lo(blobs) + count) ==> elems(blobs)[k] != 0
+//@   loop 0 modifies elems(blobs)
+
+//@ pred dHash(d) = #remoteexecution.Digest.Hash[d]
+//@ pred dSize(d) = #remoteexecution.Digest.SizeBytes[d]
+//@ pred emptyDig(d) = dSize(d) == 0 && dHash(d) == "e3b0c44298fc1c149afbf4c8996fb92427ae41e4649b934ca495991b7852b855"
+//@ pred casKey(d) = strkey(lookupKey(1, dHash(d)))
+// digest d is indexed locally with the size it states (evaluated in the current index state)
+//@ pred casPresent(c, d) = has(c.lru.cache, casKey(d)) && !mismatch(dSize(d), entSize(payload(c.lru.cache[casKey(d)].Value)))
+
+//@ func (c *diskCache) findMissingLocalCAS(blobs []*pb.Digest) int
+//@   serves C05 C06 C07 C10
+//@   requires wfCache(c) && !muHeld && c.accessLogger != nil
+//@   requires[C14] nonnil: forall k Int :: (lo(blobs) <= k && k < hi(blobs)) ==> elems(blobs)[k] != 0
+//@   modifies lruState(c.lru), elems(blobs), hitN, hitSize
+//@   gmodifies visited
+//@   gensures visited == old(visited) + len(blobs)
+//@   ensures[C07] unlocked: !muHeld
+//@   ensures[C10] count: result == nncount(elems(blobs), lo(blobs), len(blobs))
+//@   ensures[C10] keptornil: forall k Int :: (lo(blobs) <= k && k < hi(blobs)) ==> (elems(blobs)[k] == 0 || elems(blobs)[k] == old(elems(blobs))[k])
+//@   ensures[C06,C10] exact: forall k Int :: (lo(blobs) <= k && k < hi(blobs)) ==>
+//@       ((elems(blobs)[k] == 0) <==> (emptyDig(old(elems(blobs))[k]) || casPresent(c, old(elems(blobs))[k])))
+//@   loop 0 invariant lock: muHeld && lruInv(c.lru)
+//@   loop 0 invariant rest: forall k Int :: (lo(blobs) + rangeindex + 1 <= k && k < hi(blobs)) ==> elems(blobs)[k] == old(elems(blobs))[k]
+//@   loop 0 invariant keptornil: forall k Int :: (lo(blobs) <= k && k < lo(blobs) + rangeindex + 1) ==> (elems(blobs)[k] == 0 || elems(blobs)[k] == old(elems(blobs))[k])
+//@   loop 0 invariant exact: forall k Int :: (lo(blobs) <= k && k < lo(blobs) + rangeindex + 1) ==>
+//@       ((elems(blobs)[k] == 0) <==> (emptyDig(old(elems(blobs))[k]) || casPresent(c, old(elems(blobs))[k])))
+//@   loop 0 invariant cnt: missing == nncount(elems(blobs), lo(blobs), rangeindex + 1) && 0 <= missing
+//@   loop 0 modifies c.lru.ll.seq, elems(blobs), hitN, hitSize
